@@ -76,7 +76,8 @@ def gen(rng, tier):
             'pimax': float(pimax), 'pimax_class': pimax_class, 'Npi': rng.randrange(1, 6),
             'style': style, 'range': rng_class, 'mustyle': mustyle, 'wseed': rng.randrange(1 << 30),
             'fourier': rng.random() < 0.85, 'nthread': rng.choice([1, 2, 3, 4, 5, 8, 16]),
-            'sched': gen_sched(rng), 'compiled': rng.random() < 0.25}
+            'sched': gen_sched(rng), 'compiled': rng.random() < 0.25,
+            'prev_nthread': rng.choice([None, 1, 2, 5, 16])}
 
 
 def _weights(case):
@@ -219,6 +220,29 @@ def run(case):
             violation(out, 'values-depend-on-threads', site, {'nthread': case['nthread'],
                                                              'max_diff': float(np.abs(a - b).max())})
             return out
+    # ---- history: the thread count is process-global state (numba.set_num_threads); a call made after a
+    # call with another thread count, in the same session, must give the same answer as a fresh one
+    prevT = case.get('prev_nthread')
+    if prevT:
+        def two_calls():
+            _call(ps, case, w, prevT)
+            return _call(ps, case, w, case['nthread'])
+        res2, exc2, summ2 = H.run(two_calls, H.without_replay(s))
+        if SIM.oob_events:
+            violation(out, 'oob', (SIM.oob_events[0]['region'] or site).split('#')[0], SIM.oob_events[0])
+            return out
+        if exc2 is not None:
+            violation(out, 'raises:' + type(exc2).__name__, site + ':after-call-with-other-thread-count', repr(exc2)[:300])
+            return out
+        if not np.array_equal(np.asarray(res2[1]), cT):
+            violation(out, 'counts-depend-on-previous-call', site, {'previous_nthread': prevT, 'nthread': case['nthread']})
+            return out
+        for a, b in zip(res, res2):
+            a, b = np.asarray(a), np.asarray(b)
+            if a.dtype.kind == 'f' and not np.allclose(a, b, rtol=2e-5, atol=1e-6):
+                violation(out, 'values-depend-on-previous-call', site, {'previous_nthread': prevT, 'nthread': case['nthread']})
+                return out
+        bump(out['faults'], 'global-thread-count-changed-between-calls')
     out['events'].append([site, n, case['nthread'], int(cT.sum()), summ['regions'], summ['switches']])
     if case.get('compiled'):
         _compiled(case, w, ref, site, out, res1)
